@@ -697,7 +697,7 @@ func genFunc(r *rand.Rand, name string, size int, stats map[string]int) (src str
 		zs = append(zs, tyZero[t])
 		g.env = append(g.env, gvar{pn, t})
 	}
-	nr := r.Intn(4)
+	nr := []int{0, 1, 1, 1, 2, 2, 2, 3}[r.Intn(8)]
 	var rs []string
 	for i := 0; i < nr; i++ {
 		t := []ty{tInt, tStr, tAny, tS, tInts, tBool, tPS, tErr, tBytes}[r.Intn(9)]
